@@ -16,8 +16,8 @@ CFG = {
             "transaction of the tree, GetBlock/GetHeader/GetBody/GetReceiptsByHash, head pointers, state availability) and (a) judged "
             "directly against the statement of C03, (b) compared field by field with the Lean model replaying the same operations "
             "(every coin resolution followed, filtered by the observed state). 35% of the trees are 'race' trees (long light branch, "
-            "shorter heavier branch) so that reorganisations to a SHORTER chain are frequent; 30 MIXED histories per run feed one chain through InsertChain and InsertHeaderChain (replayed on the composed "
-            "model XSt, full dump compared); one extra history per run imports 138 "
+            "shorter heavier branch) so that reorganisations to a SHORTER chain are frequent; 33 MIXED histories per run feed one chain through InsertChain and InsertHeaderChain (replayed on the composed "
+            "model XSt, full dump compared; incl. directed 'shorter heavier header fork, then the block chain is extended' and random block-head extensions after header batches); directed successive rewinds on a restarted pruning node (rewind onto a stateless block, then deeper); one extra history per run imports 138 "
             "blocks on a pruning node with the default-sized cache (state garbage collection during import) and is judged directly "
             "only. The driver also checks the World hypothesis of the theorems (positive difficulty, no transaction twice along a chain) "
             "on every generated tree. Non-trivial = every history (each performs imports).",
